@@ -224,11 +224,12 @@ Create(f, nm, m) ==
 
 \* -------------------------------------------------------------------- stop
 \* releases every bound entry once (in any order); nothing remains bound
-Stop ==
+\* (fl: every release fails - a failing clunk is still a release and still unbinds)
+Stop(fl) ==
   /\ tab' = [f \in Fids |-> Unbound]
   /\ live' = {}
   /\ stopped' = TRUE
-  /\ last' = Rec("stop", NoArgs, <<>>, "", Cardinality(live))
+  /\ last' = Rec("stop", [NoArgs EXCEPT !.name = IF fl THEN "fail" ELSE ""], <<>>, "", Cardinality(live))
 
 \* (a top-level disjunction of \E-quantified actions: TLC's simulator then picks one
 \* action instance at random instead of evaluating every successor)
@@ -243,7 +244,7 @@ Next ==
   \/ \E f \in AllFids : ~stopped /\ Del("clunk", f)
   \/ \E f \in AllFids : ~stopped /\ Del("remove", f)
   \/ \E f \in AllFids, nm \in CreateNames, m \in Modes : ~stopped /\ CreateAllowed(f) /\ Create(f, nm, m)
-  \/ ~stopped /\ Stop
+  \/ \E fl \in (IF WithFail THEN BOOLEAN ELSE {FALSE}) : ~stopped /\ Stop(fl)
 
 Spec == Init /\ [][Next]_vars
 
